@@ -291,6 +291,8 @@ func classify(err error) string {
 		cls = "not-module"
 	case strings.HasPrefix(msg, "duplicate "):
 		cls = "duplicate"
+	case strings.HasPrefix(rest, "invalid ") && strings.Contains(rest, " name ") && strings.Contains(rest, "'@'"):
+		cls = "bad-name"
 	}
 	return "err " + cls + " " + pos
 }
@@ -644,6 +646,11 @@ type rgen struct {
 
 var unknownKws = []string{"foo", "Name", "Statement", "Parent", "Ext", "submodule", "module", "a:b:c", "frobnicate"}
 var prefixedKws = []string{"p:ext", "x:y", ":q", "q:", "oc-ext:openconfig-version", "Name:x"}
+
+// prefixes put in front of *known* keywords: `<pfx>:type` is an extension statement (one colon, not a
+// field of any node), never the statement `type`.  "x" is the prefix the minimal module declares.
+var localPrefixes = []string{"x", "p", "oc-ext", "", "d2"}
+
 var argPool = []string{"a", "b", "c", "x1", "a b", "", "urn:x", "1", "2001-01-01", "2002-02-02", "true", "\u00e9t\u00e9", "q\"uo\\te", "tab\there", "{;}"}
 
 func (g *rgen) arg(s *gs) {
@@ -652,6 +659,9 @@ func (g *rgen) arg(s *gs) {
 	}
 	s.hasArg = true
 	s.arg = argPool[g.r.Intn(len(argPool))]
+	if g.r.Intn(60) == 0 {
+		s.arg = []string{"a@b", "@", "m@2001-01-01"}[g.r.Intn(3)] // refused as a module name by Modules.add, fine elsewhere
+	}
 }
 
 func (g *rgen) free(depth int) *gs {
@@ -671,6 +681,9 @@ func (g *rgen) anyKw() string {
 	case x < 6:
 		return g.allKw[g.r.Intn(len(g.allKw))]
 	case x < 8:
+		if g.r.Intn(2) == 0 {
+			return localPrefixes[g.r.Intn(len(localPrefixes))] + ":" + g.allKw[g.r.Intn(len(g.allKw))]
+		}
 		return prefixedKws[g.r.Intn(len(prefixedKws))]
 	default:
 		return unknownKws[g.r.Intn(len(unknownKws))]
@@ -696,9 +709,18 @@ func (g *rgen) node(kw string, depth int, noise int) *gs {
 				need = true
 			}
 		}
-		if need && g.r.Intn(100) >= noise {
-			s.subs = append(s.subs, g.node(f.tag, depth+1, noise))
+		if need {
+			if g.r.Intn(100) >= noise {
+				s.subs = append(s.subs, g.node(f.tag, depth+1, noise))
+			} else if g.r.Intn(2) == 0 {
+				// the mandatory substatement is absent, an extension statement with its local name is there
+				s.subs = append(s.subs, g.lookAlike(f.tag, depth+1, noise))
+			}
 		}
+	}
+	if len(ti.fields) > 0 && g.r.Intn(8) == 0 {
+		// an extension statement whose local name is a field of this node (valid YANG: stays an extension)
+		s.subs = append(s.subs, g.lookAlike(ti.fields[g.r.Intn(len(ti.fields))].tag, depth+1, noise))
 	}
 	if depth < g.maxDep {
 		// optional substatements: distinct fields of the type, fewer the deeper we are; statements of
@@ -751,6 +773,13 @@ func (g *rgen) node(kw string, depth int, noise int) *gs {
 		s.subs = append(s.subs, g.node(g.anyKw(), depth+1, noise))
 	}
 	g.r.Shuffle(len(s.subs), func(i, j int) { s.subs[i], s.subs[j] = s.subs[j], s.subs[i] })
+	return s
+}
+
+// lookAlike builds `<pfx>:<kw> …` with the substatements a real <kw> would have.
+func (g *rgen) lookAlike(kw string, depth int, noise int) *gs {
+	s := g.node(kw, depth, noise)
+	s.kw = localPrefixes[g.r.Intn(len(localPrefixes))] + ":" + kw
 	return s
 }
 
@@ -814,6 +843,26 @@ var corpus = []string{
 	"module m { namespace n; prefix p; } module m2 { namespace n; } container c;",
 	"container c; module m2 { namespace n; }",
 	"module m { namespace n; prefix p; description { a:b; } }",
+	// an extension statement whose local name is that of a mandatory substatement does not stand in for it
+	"module demo2 { namespace urn:demo2; prefix d2; extension type { argument name; } leaf x { d2:type string; } }",
+	"module demo2 { namespace urn:demo2; prefix d2; leaf-list x { description d; d2:type string; } }",
+	"module demo2 { namespace urn:demo2; prefix d2; typedef t { d2:type string; } }",
+	"module demo2 { namespace urn:demo2; prefix d2; import other { d2:prefix o; } }",
+	"module demo2 { namespace urn:demo2; prefix d2; deviation /x { d2:deviate not-supported; } }",
+	"module m { prefix m; m:namespace urn:m; }",
+	"module m { namespace urn:m; m:prefix m; }",
+	"submodule s { x:belongs-to m { prefix m; } }",
+	"submodule s { belongs-to m { x:prefix m; } }",
+	"module demo2 { namespace urn:demo2; prefix d2; leaf x { d2:type int8; type string; } }",
+	"module demo2 { namespace urn:demo2; prefix d2; leaf x { type string; d2:type int8; :type a; type: b; } }",
+	"module m { namespace n; prefix p; x:belongs-to m { prefix p; } }",
+	// names with '@' are refused by Modules.add for modules and submodules only
+	"module a@b { namespace n; prefix p; }",
+	"submodule s@2001-01-01 { belongs-to m { prefix p; } }",
+	"module m { namespace n; prefix p; container a@b; }",
+	"container a@b;",
+	"module m { namespace n; prefix p; } module @ { namespace n; prefix p; }",
+	"module @ { namespace n; } module m { namespace n; prefix p; }",
 	"module m { namespace n; prefix p; deviation /x { } }",
 	"module m { namespace n; prefix p; typedef t { type string { length 1..2 { error-message e; p:x; } } } leaf-list l { type t; default a; default b; } }",
 }
@@ -1026,6 +1075,57 @@ func main() {
 			}
 		}
 	}
+	// prefixed look-alikes: for every parent keyword and every field k of its node type, an extension
+	// statement `<pfx>:k` (a) with k itself absent, (b) before a real k, (c) after a real k
+	lookAlikes := 0
+	pfxs := []string{"x", "oc-ext"}
+	if f.Thorough() {
+		pfxs = localPrefixes
+	}
+	for _, P := range parents {
+		base := P
+		if P == "submodule" {
+			base = "module"
+		}
+		path, ok := pth[base]
+		pti := typeOfKw(P)
+		if !ok || pti == nil {
+			continue
+		}
+		top := "module"
+		if P == "submodule" {
+			top = "submodule"
+		}
+		for _, fld := range pti.fields {
+			for _, pfx := range pfxs {
+				for variant := 0; variant < 3; variant++ {
+					p := minimal(P, 0)
+					var subs []*gs
+					for _, c := range p.subs {
+						if c.kw != fld.tag {
+							subs = append(subs, c)
+						}
+					}
+					real := minimal(fld.tag, 0)
+					real.arg = "y0"
+					fake := minimal(fld.tag, 0)
+					fake.kw = pfx + ":" + fld.tag
+					fake.arg = "y1"
+					switch variant {
+					case 0:
+						subs = append(subs, fake)
+					case 1:
+						subs = append(append([]*gs{fake}, subs...), real)
+					case 2:
+						subs = append(append([]*gs{real}, subs...), fake)
+					}
+					p.subs = subs
+					addTree(fmt.Sprintf("look-alike %s/%s:%s variant %d", P, pfx, fld.tag, variant), []*gs{embed(path, p, top)})
+					lookAlikes++
+				}
+			}
+		}
+	}
 	// every keyword as a top-level statement, alone and after a valid module
 	for _, K := range childs {
 		addTree("top "+K, []*gs{minimal(K, 0)})
@@ -1089,11 +1189,13 @@ func main() {
 	res.Rule = "distinct_nontrivial = distinct statement forests (wire form incl. positions) with at least 4 statements. " +
 		"Exhaustive part: every (parent keyword, child keyword, multiplicity) triple with the parent in a minimal valid module " +
 		"(and submodule) context, child keywords = every keyword of the table + meta-names Name/Statement/Parent/Ext + unknown + " +
-		"prefixed (one colon) + two-colon keywords; every such keyword as a top-level statement alone and after a valid module. " +
+		"prefixed (one colon) + two-colon keywords; every such keyword as a top-level statement alone and after a valid module; " +
+		"for every parent keyword and every field k of its node type an extension statement <pfx>:k with k absent / before k / after k. " +
 		"Random part: seeded random trees to depth 4."
 	res.Distribution["corpus_cases"] = nCorpus
 	res.Distribution["exhaustive_cases"] = nExh
 	res.Distribution["triples"] = triples
+	res.Distribution["look_alike_cases"] = lookAlikes
 	res.Distribution["parent_keywords"] = len(parents)
 	res.Distribution["child_keywords"] = len(childs)
 	res.Distribution["multiplicities"] = fmt.Sprint(mults)
